@@ -120,7 +120,12 @@ def check(case, ctx):
     k1_region = (g.Laue, g.choice) in HK.K1_CLASSES and (B.oblique or g.choice == "rhombohedral")
     if len(Ui) and not k1_region:
         r = Ui[min(len(Ui) - 1, int(case["pick"] * len(Ui)))]
+        if tuple(int(x) for x in r) not in B.stl_of:
+            return          # a row that does not belong to the shell at all (reported above): nothing meaningful to re-call with
         s = float(mod.sintl(B.cell, r))
+        if not (B.smin < s <= B.smax * (1 + 1e-9)):
+            ctx.fail("sintl-of-returned-row", "%s.sintl(%r, %r) = %r lies outside the shell (%r, %r] in which the oracle places this reflection" % (case["mod"], B.cell, r.tolist(), s, B.smin, B.smax))
+            return
         lo = B.smin if B.smin < s else 0.0
         inc = np.asarray(mod.genhkl_unique(B.cell, lo, s, **B.kw), float)
         if tuple(r) not in set(map(tuple, np.round(inc).astype(int).tolist())):
